@@ -17,9 +17,12 @@ from .formulas import FormulaHooks, LANGS, lang_of_class
 
 
 class TemplateHooks(FormulaHooks):
-    def __init__(self, prog, method, extra_args=()):
+    def __init__(self, prog, method, extra_args=(), equiv=()):
         FormulaHooks.__init__(self, prog, check_sorts=True)
         self.method = method
+        # other rewriters that keep the meaning of the formula they are
+        # called on (decided by their own rules): the result is the operand
+        self.equiv = tuple(equiv)
         self.lnot = prog.func('language.LNot')
         self.not_base = prog.cls('language.Not')
         self.raw_uses = []
@@ -46,7 +49,7 @@ class TemplateHooks(FormulaHooks):
             i = recv.meta[1]
             if name == self.method:
                 return [(path, Sym('r%d' % i, recv.typ, ('rhole', i)))]
-            if name == 'clone':
+            if name == 'clone' or name in self.equiv:
                 return [(path, recv)]
         return None
 
@@ -134,13 +137,13 @@ def show(t):
     return '%s(%s)' % (k, ', '.join(kids))
 
 
-def extract(prog, ci, method, kids, extra_args=(), rule='R-RW'):
+def extract(prog, ci, method, kids, extra_args=(), rule='R-RW', equiv=()):
     """interpret `method` on the generic instance ci(*kids) -> list of
     (term | ('raise', cls), path)"""
     f = prog.method(ci, method)
     if f is None:
         raise AnalysisError('%s not resolved for %s' % (method, ci.qn))
-    hooks = TemplateHooks(prog, method)
+    hooks = TemplateHooks(prog, method, equiv=equiv)
     I = Interp(prog, hooks, rule=rule, max_depth=10)
     path = I.new_path()
     self_v = New(ci, kids)
